@@ -8,6 +8,9 @@ def _arg(callee):
     return r"(?!" + callee + r"\b)(?!(self|th|np|random)$)(?!.*(device|cuda))(?s:.+)"
 
 
+# in BaseAlgorithm.set_random_seed the parameter `seed` and the attribute `self.seed` (the constructor's seed) are
+# DISTINCT inputs: passing self.seed where seed is meant must break the interface lemma
+_BI = dict(inputs=[("seed", "Z"), ("model_seed", "Z")], subst={"self.seed": "model_seed"})
 _U = "stable_baselines3/common/utils.py"
 _B = "stable_baselines3/common/base_class.py"
 SPECS = [
